@@ -1282,6 +1282,7 @@ def gen_search(rng):
 
 
 MIXED_SIG = "C08:mixed-scales:chebyshev-lp-solved-inaccurately"
+THIN_MIXED_SIG = "C08:mixed-scales:hit-and-run-leaves-a-thin-slab"
 
 
 def mixed_scales(bounds):
@@ -1488,6 +1489,11 @@ def _oracle(kind, inp, dm, smp, geo, bounds, cons):
     r = _check_points(kind, inp, w.generate_quasi_random_points_in_domain(inp["n"]), inp["n"], bounds, cons, fixed)
     if inp.get("thin") and not r:     # ... and once more on the same object (after a failed rejection run it is in hit-and-run mode)
       r = _check_points(kind, inp, w.generate_quasi_random_points_in_domain(inp["n"]), inp["n"], bounds, cons, fixed)
+    if r and inp.get("thin") and mixed_scales(bounds) and "outside the constrained region" in r.get("signature", ""):
+      # a registered finding of the UNCHANGED tree (thorough tier, seed 31337): on a slab of width ~1e-6 inside a box whose coordinate ranges
+      # differ by five or more orders of magnitude the hit-and-run chain (started at a feasible centre) leaves the slab by ~0.05 and never
+      # returns; reported under one exact signature - on boxes of one scale, or without the thin slab, a point outside stays a violation
+      r = dict(r, signature=THIN_MIXED_SIG, what="mixed coordinate scales, thin slab: " + r["what"])
     return r
   if kind == "near":
     out = w.generate_random_points_near_point(inp["n"], numpy.array(inp["point"], dtype=float), inp["std"], inp["on"])
